@@ -21,7 +21,8 @@ RULE = ("decode(s, L, G, v, mode, check) on: pristine walks; the walk with its i
         "checks none / correct / one symbol changed / one symbol appended; L in {0,1,4,16,64,exact}. Verdict: returns an "
         "integer array of exactly L entries iff (walk and check matches), otherwise ValueError and nothing else. "
         "Non-trivial: the string is non-empty and the oracle verdict is decided by the graph or the check (not by an empty "
-        "input); distinct = hash of the case.")
+        "input); distinct = hash of the case."
+        ' Also: check lengths 33 and 40, checks passed as numpy.str_, Fortran-ordered accessors, one walk of 1100-1250 nt per shard (int<->str trap) and edit sequences on one accessor object overwritten in place (verdicts must follow the current content).')
 
 REASONS = ("branch", "single", "dead", "symbol")
 FOREIGN = ["N", "a", "c", "-", "U", " ", "É", "中", "AC", ""]
